@@ -199,7 +199,7 @@ export async function run(ctx) {
           if (f) ctx.violation({ signature: `${f.clause}|bulk:${pn}:${vn}${o.disallowExtraProperties ? "|strict" : ""}`, clause: f.clause, detail: `${f.detail} :: parser ${pn} of the bulk program on ${vn}`, replay: { kind: "bulk", parser: pn, value: vn, options: o } });
         }
   }
-  const nProgs = ctx.share(1200, 40000);
+  const nProgs = ctx.share(4800, 40000);
   const seen = new Map();
   for await (const item of corpus(ctx, { label: "C12", count: nProgs, features: FEATURES })) {
     const { prog, parsers } = item;
